@@ -1,6 +1,7 @@
 import SpecKitV.Lemmas.Bilinear
 import SpecKitV.Lemmas.FftNoise
 import SpecKitV.Props.NoiseGen
+import SpecKitV.Props.FftNoiseGen
 
 #print axioms bilinear_section
 #print axioms bilinear_dc
@@ -22,3 +23,34 @@ import SpecKitV.Props.NoiseGen
 #print axioms sectionCorners_ratio
 #print axioms sectionCorners_step
 #print axioms gen_filter_coeffs_eq_model
+#print axioms gen_fftnoise_spectrum_eq_model
+#print axioms gen_fftnoise_rejects_iff
+#print axioms gen_fftnoise_hermitian
+#print axioms gen_fftnoise_dc_real
+#print axioms gen_fftnoise_nyquist_real
+#print axioms gen_fftnoise_magnitude_pos
+#print axioms gen_fftnoise_magnitude_neg
+#print axioms gen_fftnoise_dc_magnitude
+#print axioms gen_fftnoise_nyquist_magnitude
+#print axioms gen_fftnoise_zero_bins
+#print axioms gen_fftnoise_series_real
+#print axioms gen_fftnoise_eq
+#print axioms gen_fftnoise_series
+#print axioms FftNoiseGen.npifft_toC
+#print axioms gen_band_spectrum_eq_model
+#print axioms gen_band_rejects_iff
+#print axioms gen_band_symm
+#print axioms gen_band_iff
+#print axioms gen_band_limited_noise_eq
+#print axioms gen_band_limited_zero_outside
+#print axioms gen_band_limited_unit_inside
+#print axioms gen_alpha_init_eq_model
+#print axioms gen_alpha_rejects_iff
+#print axioms gen_alpha_corners
+#print axioms gen_alpha_corners_ratio
+#print axioms gen_alpha_corners_step
+#print axioms gen_alpha_section_response
+#print axioms gen_alpha_effective
+#print axioms gen_alpha_section_dc_nyquist
+#print axioms gen_white_init_eq
+#print axioms gen_white_variance
